@@ -44,6 +44,28 @@ Definition ops_basic (op : string) (args : list string) : option string :=
                                | Err _, _ => "ERR" | Panic, _ => "PANIC" end)
              | None => None end
     | _ => None end
+  else if String.eqb op "varint_sweep" then
+    (* exhaustive sweep: decode prefix ++ [b1; b2] for all 65536 (b1, b2); report the number accepted, the sum of the values,
+       the sum of the consumed lengths and a rolling hash of every individual outcome (order: b1 major, b2 minor) *)
+    match args with
+    | [h] =>
+        match parse_hex h with
+        | Some pre =>
+            let bytes256 := map N.of_nat (seq 0 256) in
+            let step (b1 : N) (acc : N * N * N * N) (b2 : N) :=
+              let '(nok, sv, sc, hh) := acc in
+              let s := (pre ++ [n2b b1; n2b b2])%list in
+              match dec_varint s with
+              | (Ok v, rest) =>
+                  let c := consumed s rest in
+                  (nok + 1, sv + v, sc + c, (hh * 1000003 + (v * 16 + c)) mod 2305843009213693951)
+              | _ => (nok, sv, sc, (hh * 1000003 + 1) mod 2305843009213693951)
+              end in
+            let '(nok, sv, sc, hh) :=
+              fold_left (fun acc b1 => fold_left (step b1) bytes256 acc) bytes256 (0, 0, 0, 7) in
+            Some ("OK " ++ show_N nok ++ " " ++ show_N sv ++ " " ++ show_N sc ++ " " ++ show_N hh)
+        | None => None end
+    | _ => None end
   else if String.eqb op "leb128" then
     match args with
     | [n] => match parse_N n with Some n => Some ("OK " ++ show_hex (leb128 n)) | None => None end
